@@ -124,6 +124,24 @@ def enum_cases(start_id, depth):
         cid += 1
 
 
+def shuffle_cases(start_id, depth):
+    """Exhaustive tails after the prefixes that put one manifest under two tags next to another manifest: all sequences of
+    [depth] operations among tag removals, removals by digest (which move the last entry into the gap) and pushes again.
+    This is where the order of the entries of one digest matters."""
+    X, A = DIGS[0], DIGS[1]
+    t, u = TAGS[0], TAGS[1]
+    add = lambda d, ann=None: dict(op="add", d=mk(d, ann), children=None, copy=False)
+    rm = lambda d, ann=None: dict(op="rm", d=mk(d, ann), children=None, copy=False)
+    alpha = [rm(A, {REFNAME: t}), rm(A, {REFNAME: u}), rm(X), rm(A), add(A, {REFNAME: t}), add(A, {REFNAME: u}), add(A), add(X), rm("", {REFNAME: t})]
+    prefixes = [[add(X), add(A, {REFNAME: t}), add(A, {REFNAME: u})], [add(A, {REFNAME: t}), add(X), add(A, {REFNAME: u})],
+                [add(A, {REFNAME: t}), add(A, {REFNAME: u}), add(X)]]
+    cid = start_id
+    for pre in prefixes:
+        for seq in itertools.product(alpha, repeat=depth):
+            yield dict(id=cid, ops=[dict(o) for o in pre] + [dict(o) for o in seq], queries=[X, A, t, u], annq=[[SUBJ, ""], [REFNAME, t]], universe='shared')
+            cid += 1
+
+
 # ---- direct oracle on the implementation's states ---------------------------------------
 def tag_of(d):
     return (d["ann"] or {}).get(REFNAME, "")
@@ -381,8 +399,10 @@ def run(ctx):
                                   universe=("api", "shared", "beyond")[k % 3 if k % 9 else 0]))
         if ctx.tier == "thorough":
             cases += list(enum_cases(len(cases), 3))
+            cases += list(shuffle_cases(len(cases), 4))
         else:
             cases += list(enum_cases(len(cases), 2))
+            cases += list(shuffle_cases(len(cases), 3))
     outs = run_impl(ctx, binp, cases, "c18")
     for c in cases:
         oracle(ctx, c, outs[c["id"]])
@@ -410,7 +430,7 @@ def run(ctx):
                       "C18:proof", nofail=not ctx.violations)
     ctx.coverage.update(dict(
         evaluations=len(cases), distinct_nontrivial=len(nontriv),
-        rule="operation sequences on types.Index (corpus %d, random structured + adversarial annotation shapes, exhaustive depth-%d over 2 digests x 2 tags x 1 subject); non-trivial = at least 2 operations, distinct by operation list"
+        rule="operation sequences on types.Index (corpus %d, random structured + adversarial annotation shapes, exhaustive depth-%d over 2 digests x 2 tags x 1 subject, exhaustive tails of 9 operations after 3 two-tag prefixes); non-trivial = at least 2 operations, distinct by operation list"
              % (ncorpus, 3 if ctx.tier == "thorough" else 2),
         traces_validated_against_impl=len(cases) - len(bad),
         correspondence_mismatches=len(bad),
